@@ -135,7 +135,7 @@ def module_devs(tkey, seed=0, spikes="all", opt8="all"):
             for i in idx:
                 devs.append({"k": "elem", "p": path, "i": i, "v": FLOATS[1 + i % (len(FLOATS) - 1)]})
             continue
-        for pat in ("min", "max", "ramp", "alt"):
+        for pat in ("min", "max", "ramp", "alt", "shift", "reverse"):
             devs.append({"k": "fill", "p": path, "pat": pat})
         idx = range(length) if spikes == "all" else sorted({0, 1, length - 1, (seed * 31 + 7) % length})
         for i in idx:
@@ -144,7 +144,7 @@ def module_devs(tkey, seed=0, spikes="all", opt8="all"):
                 devs.append({"k": "elem", "p": path, "i": i, "v": lo})
                 devs.append({"k": "elem", "p": path, "i": i, "v": (lo + hi) // 2})
     if t.type == "Vorbis player":
-        for v in (b"", b"\0", b"OggS" + bytes(range(256)), b"\xff" * 1000):
+        for v in (b"", b"\0", b"OggS" + bytes(range(256)), b"\xff" * 1000, b"OggS" + bytes(65532), bytes(range(256)) * 257):
             devs.append({"k": "attr", "n": "data", "v": v})
     if t.type == "MetaModule":
         # user-defined controllers: count n, with a MIDI binding and a label on the LAST exposed one
@@ -302,6 +302,12 @@ def apply_dev(mod, d):
                 cur = [lo + (i * (hi - lo)) // max(1, length - 1) for i in range(length)]
             elif pat == "alt":
                 cur = [hi if i % 2 else lo for i in range(length)]
+            elif pat == "shift":
+                # the default contents moved by a constant (same step between neighbours, e.g. a transposed keyboard)
+                delta = 256 if hi > 4096 else 1
+                cur = [max(lo, min(hi, int(v) + delta)) for v in cur]
+            elif pat == "reverse":
+                cur = [int(v) for v in reversed(cur)]
         if d["p"] == "harmonic_types":
             cur = [type(mod).HarmonicType(int(v)) for v in cur]
         setattr(chunk, kind, cur)
